@@ -118,6 +118,30 @@ async def roundtrip(ctx, nodes: dict, workdir: str, origin: dict) -> None:
     if diff:
         ctx.violation("roundtrip-differs", f"registry after save+load differs at {diff}", case)
         return
+    # a second load of the same file gives an INDEPENDENT registry: mutating one must not show in the other
+    ctx.clause("loads-are-independent")
+    second: dict = {}
+    try:
+        await Persistence(second, path).load()
+    except Exception as exc:  # noqa: BLE001
+        ctx.violation("second-load-raises", f"{type(exc).__name__}: {exc!s:.100}", case)
+        return
+    reference = typed(snap(second))
+    for node in loaded.values():
+        node.battery_level = (node.battery_level + 1) % 101
+        node.sketch_name = node.sketch_name + "*"
+        node.sleeping = not node.sleeping
+        for child in node.children.values():
+            child.values[987] = "mutated"
+            child.description += "*"
+        node.children[253] = type(next(iter(node.children.values()), None) or __import__(
+            "aiomysensors.model.node", fromlist=["Child"]).Child(0, 0))(253, 1)
+    diff = first_difference(reference, typed(snap(second)))
+    if diff:
+        ctx.violation("loaded-registries-share-state",
+                      f"two loads of the same file share mutable state: changing the first loaded registry changed the second at {diff}",
+                      case)
+        return
     # legacy layout
     with open(path, encoding="utf-8") as fil:
         native_text = fil.read()
